@@ -5,7 +5,6 @@ import (
 	"github.com/modernizing/coca/languages/java"
 	"github.com/modernizing/coca/pkg/domain/core_domain"
 	"github.com/modernizing/coca/pkg/infrastructure/ast/ast_java/common_listener"
-	"reflect"
 	"strconv"
 	"strings"
 )
@@ -203,9 +202,7 @@ func (s *JavaFullListener) EnterInterfaceMethodDeclaration(ctx *parser.Interface
 	name := bodyDecl.Identifier().GetText()
 	typeType := bodyDecl.TypeTypeOrVoid().GetText()
 
-	if reflect.TypeOf(ctx.GetParent().GetParent().GetChild(0)).String() == "*parser.ModifierContext" {
-		common_listener.BuildAnnotationForMethod(ctx.GetParent().GetParent().GetChild(0).(*parser.ModifierContext), &currentMethod)
-	}
+	common_listener.BuildAnnotationsForMember(ctx.GetParent().GetParent(), &currentMethod)
 
 	position := BuildPosition(ctx.BaseParserRuleContext, name)
 
@@ -316,9 +313,7 @@ func (s *JavaFullListener) EnterMethodDeclaration(ctx *parser.MethodDeclarationC
 	}
 	typeType := ctx.TypeTypeOrVoid().GetText()
 
-	if reflect.TypeOf(ctx.GetParent().GetParent().GetChild(0)).String() == "*parser.ModifierContext" {
-		common_listener.BuildAnnotationForMethod(ctx.GetParent().GetParent().GetChild(0).(*parser.ModifierContext), &currentMethod)
-	}
+	common_listener.BuildAnnotationsForMember(ctx.GetParent().GetParent(), &currentMethod)
 
 	// check, before your refactor
 	position := core_domain.CodePosition{
